@@ -25,6 +25,9 @@ def Scr.geo (s : Scr) : Prop :=
 def Term.geo (t : Term) : Prop :=
   t.main.geo ∧ t.alt.geo ∧ t.main.w = t.alt.w ∧ t.main.h = t.alt.h
 
+instance (s : Scr) : Decidable s.geo := by unfold Scr.geo; infer_instance
+instance (t : Term) : Decidable t.geo := by unfold Term.geo; infer_instance
+
 /-- every character stored in the grid is at most 2 cells wide -/
 def Scr.narrow (s : Scr) : Prop :=
   ∀ r ∈ s.grid, ∀ t w st, (⟨.ch t w, st⟩ : Cell) ∈ r → w ≤ 2
@@ -773,62 +776,102 @@ theorem ok_fitRow {B : Nat → Prop} (hB1 : B 1) {r : Row} (h : okRow B r) (w : 
 theorem ok_blankRow {B : Nat → Prop} (hB1 : B 1) (w : Nat) (st : Style) : okRow B (blankRow w st) :=
   ok_blanks hB1 w st
 
+/-! ### what the dispatcher needs from an invariant on rows -/
+
+/-- `P` is an invariant on rows that all row operations used under policy `pol` preserve, for
+    new characters whose width satisfies `Wd` -/
+structure RowInv (pol : WidePolicy) (Wd : Nat → Prop) (P : Row → Prop) : Prop where
+  one : Wd 1
+  blank : ∀ w st, P (blankRow w st)
+  erase : ∀ {r : Row}, P r → ∀ a b st, P (r.erase a b st)
+  dch : ∀ {r : Row}, P r → ∀ x n st, P (r.dch x n st)
+  put : ∀ {r : Row} {x w : Nat}, P r → ∀ (t : Bytes) (st : Style), 1 ≤ w → x + w ≤ r.length →
+    Wd w → P (r.put x t w st)
+  putKeep : pol = .keep → ∀ {r : Row} {x w : Nat}, P r → ∀ (t : Bytes) (st : Style),
+    contAt r x = true → 1 ≤ w → x + w ≤ r.length → Wd w →
+    P (r.putKeep x t w st) ∧ (r.putKeep x t w st).length = r.length ∧
+      x < headOf r x + widthAt r (headOf r x) ∧
+      headOf r x + widthAt r (headOf r x) ≤ r.length ∧ 0 < x
+  fit : ∀ {r : Row}, P r → ∀ w st, P (fitRow r w st)
+
+/-- well-formed rows with widths in `B` -/
+theorem rowInv_ok (pol : WidePolicy) (B : Nat → Prop) (hB1 : B 1)
+    (hB2 : pol = .keep → ∀ w, B w → w ≤ 2) : RowInv pol B (okRow B) where
+  one := hB1
+  blank := fun w st => ok_blankRow hB1 w st
+  erase := fun h a b st => ok_erase hB1 h a b st
+  dch := fun h x n st => ok_dch hB1 h x n st
+  put := fun h t st hw hxw hBw => ok_put hB1 h t st hw hxw hBw
+  putKeep := fun hp _ _ _ h t st hc hw hxw hBw => ok_putKeep hB1 (hB2 hp) h t st hc hw hxw hBw
+  fit := fun h w st => ok_fitRow hB1 h w st
+
+/-- under the `blank` policy the trivial row invariant will do (lengths are kept by every row
+    operation unconditionally) -/
+theorem rowInv_trivial : RowInv .blank (fun _ => True) (fun _ => True) where
+  one := trivial
+  blank := fun _ _ => trivial
+  erase := fun _ _ _ _ => trivial
+  dch := fun _ _ _ _ => trivial
+  put := fun _ _ _ _ _ _ => trivial
+  putKeep := fun hp => by cases hp
+  fit := fun _ _ _ => trivial
+
 /-! ### screens -/
 
-/-- the screen invariant: geometry, and every row well formed with character widths in `B` -/
-def SOk (B : Nat → Prop) (s : Scr) : Prop := s.geo ∧ ∀ r ∈ s.grid, okRow B r
+/-- the screen invariant: geometry, and every row satisfies `P` -/
+def SOk (P : Row → Prop) (s : Scr) : Prop := s.geo ∧ ∀ r ∈ s.grid, P r
 
 /-- `s` is a valid screen of the same size as `s0` -/
-def Keeps (B : Nat → Prop) (s0 s : Scr) : Prop := SOk B s ∧ s.w = s0.w ∧ s.h = s0.h
+def Keeps (P : Row → Prop) (s0 s : Scr) : Prop := SOk P s ∧ s.w = s0.w ∧ s.h = s0.h
 
 section Screens
-variable {B : Nat → Prop}
+variable {P : Row → Prop} {Wd : Nat → Prop} {pol : WidePolicy}
 
-theorem keeps_refl {s : Scr} (h : SOk B s) : Keeps B s s := ⟨h, rfl, rfl⟩
+theorem keeps_refl {s : Scr} (h : SOk P s) : Keeps P s s := ⟨h, rfl, rfl⟩
 
-theorem SOk.wpos {s : Scr} (h : SOk B s) : 1 ≤ s.w := h.1.1
-theorem SOk.hpos {s : Scr} (h : SOk B s) : 1 ≤ s.h := h.1.2.1
-theorem SOk.glen {s : Scr} (h : SOk B s) : s.grid.length = s.h := h.1.2.2.1
-theorem SOk.rlen {s : Scr} (h : SOk B s) : ∀ r ∈ s.grid, r.length = s.w := h.1.2.2.2.1
-theorem SOk.cxlt {s : Scr} (h : SOk B s) : s.cx < s.w := h.1.2.2.2.2.1
-theorem SOk.cylt {s : Scr} (h : SOk B s) : s.cy < s.h := h.1.2.2.2.2.2.1
-theorem SOk.sxlt {s : Scr} (h : SOk B s) : s.sx < s.w := h.1.2.2.2.2.2.2.1
-theorem SOk.sylt {s : Scr} (h : SOk B s) : s.sy < s.h := h.1.2.2.2.2.2.2.2.1
-theorem SOk.tb {s : Scr} (h : SOk B s) : s.top ≤ s.bot := h.1.2.2.2.2.2.2.2.2.1
-theorem SOk.botlt {s : Scr} (h : SOk B s) : s.bot < s.h := h.1.2.2.2.2.2.2.2.2.2
+theorem SOk.wpos {s : Scr} (h : SOk P s) : 1 ≤ s.w := h.1.1
+theorem SOk.hpos {s : Scr} (h : SOk P s) : 1 ≤ s.h := h.1.2.1
+theorem SOk.glen {s : Scr} (h : SOk P s) : s.grid.length = s.h := h.1.2.2.1
+theorem SOk.rlen {s : Scr} (h : SOk P s) : ∀ r ∈ s.grid, r.length = s.w := h.1.2.2.2.1
+theorem SOk.cxlt {s : Scr} (h : SOk P s) : s.cx < s.w := h.1.2.2.2.2.1
+theorem SOk.cylt {s : Scr} (h : SOk P s) : s.cy < s.h := h.1.2.2.2.2.2.1
+theorem SOk.sxlt {s : Scr} (h : SOk P s) : s.sx < s.w := h.1.2.2.2.2.2.2.1
+theorem SOk.sylt {s : Scr} (h : SOk P s) : s.sy < s.h := h.1.2.2.2.2.2.2.2.1
+theorem SOk.tb {s : Scr} (h : SOk P s) : s.top ≤ s.bot := h.1.2.2.2.2.2.2.2.2.1
+theorem SOk.botlt {s : Scr} (h : SOk P s) : s.bot < s.h := h.1.2.2.2.2.2.2.2.2.2
 
-theorem keeps_grid {s0 s : Scr} (hk : Keeps B s0 s) {g : List Row} (hl : g.length = s.h)
-    (hr : ∀ r ∈ g, r.length = s.w ∧ okRow B r) : Keeps B s0 { s with grid := g } := by
+theorem keeps_grid {s0 s : Scr} (hk : Keeps P s0 s) {g : List Row} (hl : g.length = s.h)
+    (hr : ∀ r ∈ g, r.length = s.w ∧ P r) : Keeps P s0 { s with grid := g } := by
   obtain ⟨⟨⟨a, b, c, d, e, f, g', i, j, k⟩, o⟩, hw, hh⟩ := hk
   exact ⟨⟨⟨a, b, hl, fun r m => (hr r m).1, e, f, g', i, j, k⟩, fun r m => (hr r m).2⟩, hw, hh⟩
 
 /-- only scalar fields change -/
-theorem keeps_scalars {s0 s s' : Scr} (hk : Keeps B s0 s) (hw : s'.w = s.w) (hh : s'.h = s.h)
+theorem keeps_scalars {s0 s s' : Scr} (hk : Keeps P s0 s) (hw : s'.w = s.w) (hh : s'.h = s.h)
     (hg : s'.grid = s.grid) (hcx : s'.cx < s.w) (hcy : s'.cy < s.h) (hsx : s'.sx < s.w)
-    (hsy : s'.sy < s.h) (htb : s'.top ≤ s'.bot) (hb : s'.bot < s.h) : Keeps B s0 s' := by
+    (hsy : s'.sy < s.h) (htb : s'.top ≤ s'.bot) (hb : s'.bot < s.h) : Keeps P s0 s' := by
   obtain ⟨⟨⟨a, b, c, d, e, f, g', i, j, k⟩, o⟩, hw0, hh0⟩ := hk
   refine ⟨⟨⟨?_, ?_, ?_, ?_, ?_, ?_, ?_, ?_, htb, ?_⟩, ?_⟩, hw.trans hw0, hh.trans hh0⟩
   all_goals first | rw [hg, hw] | rw [hg, hh] | rw [hw] | rw [hh] | rw [hg]
   all_goals assumption
 
-theorem keeps_cx {s0 s : Scr} (hk : Keeps B s0 s) {x : Nat} (hx : x < s.w) :
-    Keeps B s0 { s with cx := x } :=
+theorem keeps_cx {s0 s : Scr} (hk : Keeps P s0 s) {x : Nat} (hx : x < s.w) :
+    Keeps P s0 { s with cx := x } :=
   keeps_scalars hk rfl rfl rfl hx hk.1.cylt hk.1.sxlt hk.1.sylt hk.1.tb hk.1.botlt
 
-theorem keeps_cy {s0 s : Scr} (hk : Keeps B s0 s) {y : Nat} (hy : y < s.h) :
-    Keeps B s0 { s with cy := y } :=
+theorem keeps_cy {s0 s : Scr} (hk : Keeps P s0 s) {y : Nat} (hy : y < s.h) :
+    Keeps P s0 { s with cy := y } :=
   keeps_scalars hk rfl rfl rfl hk.1.cxlt hy hk.1.sxlt hk.1.sylt hk.1.tb hk.1.botlt
 
-theorem keeps_sty {s0 s : Scr} (hk : Keeps B s0 s) (st : Style) : Keeps B s0 { s with sty := st } :=
+theorem keeps_sty {s0 s : Scr} (hk : Keeps P s0 s) (st : Style) : Keeps P s0 { s with sty := st } :=
   keeps_scalars hk rfl rfl rfl hk.1.cxlt hk.1.cylt hk.1.sxlt hk.1.sylt hk.1.tb hk.1.botlt
 
-theorem keeps_wrap {s0 s : Scr} (hk : Keeps B s0 s) (v : Bool) : Keeps B s0 { s with wrap := v } :=
+theorem keeps_wrap {s0 s : Scr} (hk : Keeps P s0 s) (v : Bool) : Keeps P s0 { s with wrap := v } :=
   keeps_scalars hk rfl rfl rfl hk.1.cxlt hk.1.cylt hk.1.sxlt hk.1.sylt hk.1.tb hk.1.botlt
 
 theorem clampNat_le (v : Int) (hi : Nat) : clampNat v hi ≤ hi := by unfold clampNat; omega
 
-theorem keeps_setCursor {s0 s : Scr} (hk : Keeps B s0 s) (x y : Int) :
-    Keeps B s0 (s.setCursor x y) := by
+theorem keeps_setCursor {s0 s : Scr} (hk : Keeps P s0 s) (x y : Int) :
+    Keeps P s0 (s.setCursor x y) := by
   have h1 := clampNat_le x (s.w - 1)
   have h2 := clampNat_le y (s.h - 1)
   have := hk.1.wpos
@@ -836,8 +879,8 @@ theorem keeps_setCursor {s0 s : Scr} (hk : Keeps B s0 s) (x y : Int) :
   exact keeps_scalars hk rfl rfl rfl (by simp only [Scr.setCursor]; omega)
     (by simp only [Scr.setCursor]; omega) hk.1.sxlt hk.1.sylt hk.1.tb hk.1.botlt
 
-theorem keeps_setMargins {s0 s : Scr} (hk : Keeps B s0 s) (t b : Int) :
-    Keeps B s0 (s.setMargins t b) := by
+theorem keeps_setMargins {s0 s : Scr} (hk : Keeps P s0 s) (t b : Int) :
+    Keeps P s0 (s.setMargins t b) := by
   unfold Scr.setMargins
   simp only
   split
@@ -847,19 +890,19 @@ theorem keeps_setMargins {s0 s : Scr} (hk : Keeps B s0 s) (t b : Int) :
     exact keeps_scalars hk rfl rfl rfl hk.1.cxlt hk.1.cylt hk.1.sxlt hk.1.sylt
       (by simp only; omega) (by simp only; omega)
 
-theorem keeps_saveCursor {s0 s : Scr} (hk : Keeps B s0 s) : Keeps B s0 s.saveCursor :=
+theorem keeps_saveCursor {s0 s : Scr} (hk : Keeps P s0 s) : Keeps P s0 s.saveCursor :=
   keeps_scalars hk rfl rfl rfl hk.1.cxlt hk.1.cylt hk.1.cxlt hk.1.cylt hk.1.tb hk.1.botlt
 
-theorem keeps_restoreCursor {s0 s : Scr} (hk : Keeps B s0 s) : Keeps B s0 s.restoreCursor :=
+theorem keeps_restoreCursor {s0 s : Scr} (hk : Keeps P s0 s) : Keeps P s0 s.restoreCursor :=
   keeps_scalars hk rfl rfl rfl hk.1.sxlt hk.1.sylt hk.1.sxlt hk.1.sylt hk.1.tb hk.1.botlt
 
-theorem row_mem {s : Scr} (h : SOk B s) {y : Nat} (hy : y < s.h) : s.row y ∈ s.grid := by
+theorem row_mem {s : Scr} (h : SOk P s) {y : Nat} (hy : y < s.h) : s.row y ∈ s.grid := by
   have hy' : y < s.grid.length := by rw [h.glen]; exact hy
   simp only [Scr.row, List.getD_eq_getElem?_getD, List.getElem?_eq_getElem hy', Option.getD_some]
   exact List.getElem_mem hy'
 
-theorem keeps_setRow {s0 s : Scr} (hk : Keeps B s0 s) (y : Nat) {r : Row} (hl : r.length = s.w)
-    (ho : okRow B r) : Keeps B s0 (s.setRow y r) := by
+theorem keeps_setRow {s0 s : Scr} (hk : Keeps P s0 s) (y : Nat) {r : Row} (hl : r.length = s.w)
+    (ho : P r) : Keeps P s0 (s.setRow y r) := by
   unfold Scr.setRow
   apply keeps_grid hk (by simp; exact hk.1.glen)
   intro r' hm
@@ -867,17 +910,17 @@ theorem keeps_setRow {s0 s : Scr} (hk : Keeps B s0 s) (y : Nat) {r : Row} (hl : 
   · exact ⟨hk.1.rlen r' hm, hk.1.2 r' hm⟩
   · exact ⟨hl, ho⟩
 
-theorem keeps_scroll (hB1 : B 1) {s0 s : Scr} (hk : Keeps B s0 s) (y1 y2 : Nat) (d : Int) :
-    Keeps B s0 (s.scroll y1 y2 d) := by
+theorem keeps_scroll (I : RowInv pol Wd P) {s0 s : Scr} (hk : Keeps P s0 s) (y1 y2 : Nat) (d : Int) :
+    Keeps P s0 (s.scroll y1 y2 d) := by
   unfold Scr.scroll
   simp only
   split
   · exact hk
   · next hcond =>
     have hgl := hk.1.glen
-    have hold : ∀ r ∈ s.grid, r.length = s.w ∧ okRow B r := fun r m => ⟨hk.1.rlen r m, hk.1.2 r m⟩
-    have hblank : (blankRow s.w s.sty).length = s.w ∧ okRow B (blankRow s.w s.sty) :=
-      ⟨by simp [blankRow], ok_blankRow hB1 _ _⟩
+    have hold : ∀ r ∈ s.grid, r.length = s.w ∧ P r := fun r m => ⟨hk.1.rlen r m, hk.1.2 r m⟩
+    have hblank : (blankRow s.w s.sty).length = s.w ∧ P (blankRow s.w s.sty) :=
+      ⟨by simp [blankRow], I.blank _ _⟩
     apply keeps_grid hk
     · split <;> simp only [List.length_append, List.length_take, List.length_drop,
         List.length_replicate] <;> omega
@@ -894,42 +937,42 @@ theorem keeps_scroll (hB1 : B 1) {s0 s : Scr} (hk : Keeps B s0 s) (y1 y2 : Nat) 
           · rw [(List.mem_replicate.1 hm).2]; exact hblank
       · exact hold r (List.mem_of_mem_drop hm)
 
-theorem keeps_lineDown (hB1 : B 1) {s0 s : Scr} (hk : Keeps B s0 s) : Keeps B s0 s.lineDown := by
+theorem keeps_lineDown (I : RowInv pol Wd P) {s0 s : Scr} (hk : Keeps P s0 s) : Keeps P s0 s.lineDown := by
   unfold Scr.lineDown
   split
-  · exact keeps_scroll hB1 hk _ _ _
+  · exact keeps_scroll I hk _ _ _
   · split
     · next h => exact keeps_cy hk h
     · exact hk
 
-theorem keeps_lineUp (hB1 : B 1) {s0 s : Scr} (hk : Keeps B s0 s) : Keeps B s0 s.lineUp := by
+theorem keeps_lineUp (I : RowInv pol Wd P) {s0 s : Scr} (hk : Keeps P s0 s) : Keeps P s0 s.lineUp := by
   unfold Scr.lineUp
   split
-  · exact keeps_scroll hB1 hk _ _ _
+  · exact keeps_scroll I hk _ _ _
   · split
     · exact keeps_cy hk (by have := hk.1.cylt; omega)
     · exact hk
 
-theorem keeps_eraseRegion (hB1 : B 1) {s0 s : Scr} (hk : Keeps B s0 s) (x1 y1 x2 y2 : Nat) :
-    Keeps B s0 (s.eraseRegion x1 y1 x2 y2) := by
+theorem keeps_eraseRegion (I : RowInv pol Wd P) {s0 s : Scr} (hk : Keeps P s0 s) (x1 y1 x2 y2 : Nat) :
+    Keeps P s0 (s.eraseRegion x1 y1 x2 y2) := by
   unfold Scr.eraseRegion
   apply keeps_grid hk (by simp; exact hk.1.glen)
   intro r hm
   obtain ⟨i, hi, rfl⟩ := List.mem_mapIdx.1 hm
   have hmem : s.grid[i] ∈ s.grid := List.getElem_mem hi
   split
-  · exact ⟨by rw [erase_length]; exact hk.1.rlen _ hmem, ok_erase hB1 (hk.1.2 _ hmem) _ _ _⟩
+  · exact ⟨by rw [erase_length]; exact hk.1.rlen _ hmem, I.erase (hk.1.2 _ hmem) _ _ _⟩
   · exact ⟨hk.1.rlen _ hmem, hk.1.2 _ hmem⟩
 
-theorem keeps_eraseRegionI (hB1 : B 1) {s0 s : Scr} (hk : Keeps B s0 s) (x1 y1 x2 y2 : Int) :
-    Keeps B s0 (s.eraseRegionI x1 y1 x2 y2) := by
+theorem keeps_eraseRegionI (I : RowInv pol Wd P) {s0 s : Scr} (hk : Keeps P s0 s) (x1 y1 x2 y2 : Int) :
+    Keeps P s0 (s.eraseRegionI x1 y1 x2 y2) := by
   unfold Scr.eraseRegionI
-  exact keeps_eraseRegion hB1 hk _ _ _ _
+  exact keeps_eraseRegion I hk _ _ _ _
 
-theorem keeps_dch (hB1 : B 1) {s0 s : Scr} (hk : Keeps B s0 s) (n : Nat) : Keeps B s0 (s.dch n) := by
+theorem keeps_dch (I : RowInv pol Wd P) {s0 s : Scr} (hk : Keeps P s0 s) (n : Nat) : Keeps P s0 (s.dch n) := by
   unfold Scr.dch
   have hm := row_mem hk.1 hk.1.cylt
-  exact keeps_setRow hk _ (by rw [dch_length]; exact hk.1.rlen _ hm) (ok_dch hB1 (hk.1.2 _ hm) _ _ _)
+  exact keeps_setRow hk _ (by rw [dch_length]; exact hk.1.rlen _ hm) (I.dch (hk.1.2 _ hm) _ _ _)
 
 /-! ### `Scr.put` -/
 
@@ -962,41 +1005,41 @@ theorem lineDown_cx (s : Scr) : s.lineDown.cx = s.cx := by
   · split <;> rfl
   · split <;> rfl
 
-theorem keeps_putPre (hB1 : B 1) {s0 s : Scr} (hk : Keeps B s0 s) {w : Nat} (hw1 : 1 ≤ w)
-    (hw : w ≤ s.w) : Keeps B s0 (putPre s w) ∧ (putPre s w).cx + w ≤ (putPre s w).w := by
+theorem keeps_putPre (I : RowInv pol Wd P) {s0 s : Scr} (hk : Keeps P s0 s) {w : Nat} (hw1 : 1 ≤ w)
+    (hw : w ≤ s.w) : Keeps P s0 (putPre s w) ∧ (putPre s w).cx + w ≤ (putPre s w).w := by
   unfold putPre
   split
   · split
-    · have hk' := keeps_lineDown hB1 (keeps_cx hk (x := 0) hk.1.wpos)
+    · have hk' := keeps_lineDown I (keeps_cx hk (x := 0) hk.1.wpos)
       refine ⟨hk', ?_⟩
       rw [lineDown_cx, hk'.2.1, ← hk.2.1]
       simp only; omega
     · exact ⟨keeps_cx hk (by omega), by simp only; omega⟩
   · exact ⟨hk, by omega⟩
 
-theorem keeps_putFinish (hB1 : B 1) {s0 s2 : Scr} (hk : Keeps B s0 s2) (x : Nat)
-    (hx : x - s2.w < s2.w) : Keeps B s0 (putFinish s2 x) := by
+theorem keeps_putFinish (I : RowInv pol Wd P) {s0 s2 : Scr} (hk : Keeps P s0 s2) (x : Nat)
+    (hx : x - s2.w < s2.w) : Keeps P s0 (putFinish s2 x) := by
   unfold putFinish
   have := hk.1.wpos
   split
   · next h => exact keeps_cx hk h
   · split
-    · exact keeps_lineDown hB1 (keeps_cx hk hx)
+    · exact keeps_lineDown I (keeps_cx hk hx)
     · exact keeps_cx hk (by omega)
 
 /-- printable characters keep the screen invariant: under the `blank` policy for every width
     (`B` arbitrary), under the `keep` policy when all widths are at most 2 -/
-theorem keeps_put (hB1 : B 1) {s0 s : Scr} (hk : Keeps B s0 s) (pol : WidePolicy)
-    (hB2 : pol = .keep → ∀ w, B w → w ≤ 2) (text0 : Bytes) (w0 : Nat) (hBw : B (max w0 1)) :
-    Keeps B s0 (Scr.put pol s text0 w0) := by
+theorem keeps_put (I : RowInv pol Wd P) {s0 s : Scr} (hk : Keeps P s0 s)
+    (text0 : Bytes) (w0 : Nat) (hBw : Wd (max w0 1)) :
+    Keeps P s0 (Scr.put pol s text0 w0) := by
   rw [put_eq]
   simp only
   generalize hwd : (if max w0 1 > s.w then 1 else max w0 1) = w
   generalize (if max w0 1 > s.w then replacementChar else text0) = text
   have hw1 : 1 ≤ w := by rw [← hwd]; split <;> omega
   have hws : w ≤ s.w := by have := hk.1.wpos; rw [← hwd]; split <;> omega
-  have hBw' : B w := by rw [← hwd]; split; exact hB1; exact hBw
-  obtain ⟨hk1, hfit⟩ := keeps_putPre hB1 hk hw1 hws
+  have hBw' : Wd w := by rw [← hwd]; split; exact I.one; exact hBw
+  obtain ⟨hk1, hfit⟩ := keeps_putPre I hk hw1 hws
   generalize putPre s w = s1 at hk1 hfit
   have hm := row_mem hk1.1 hk1.1.cylt
   have hrl := hk1.1.rlen _ hm
@@ -1004,15 +1047,15 @@ theorem keeps_put (hB1 : B 1) {s0 s : Scr} (hk : Keeps B s0 s) (pol : WidePolicy
   by_cases hkeep : (contAt (s1.row s1.cy) s1.cx && pol == .keep) = true
   · simp only [hkeep, if_true]
     simp only [Bool.and_eq_true, beq_iff_eq] at hkeep
-    obtain ⟨o, l, e1, e2, x0⟩ := ok_putKeep hB1 (hB2 hkeep.2) hro text s1.sty hkeep.1 hw1
+    obtain ⟨o, l, e1, e2, x0⟩ := I.putKeep hkeep.2 hro text s1.sty hkeep.1 hw1
       (by rw [hrl]; exact hfit) hBw'
-    apply keeps_putFinish hB1 (keeps_setRow hk1 _ (l.trans hrl) o)
+    apply keeps_putFinish I (keeps_setRow hk1 _ (l.trans hrl) o)
     simp only [Scr.setRow]
     rw [hrl] at e2
     omega
   · simp only [hkeep]
-    apply keeps_putFinish hB1 (keeps_setRow hk1 _ (by rw [put_length]; exact hrl)
-      (ok_put hB1 hro text s1.sty hw1 (by rw [hrl]; exact hfit) hBw'))
+    apply keeps_putFinish I (keeps_setRow hk1 _ (by rw [put_length]; exact hrl)
+      (I.put hro text s1.sty hw1 (by rw [hrl]; exact hfit) hBw'))
     simp only [Scr.setRow]
     have := hk1.1.wpos
     simp only [Bool.false_eq_true, if_false]
@@ -1037,16 +1080,16 @@ theorem geo_resize (s : Scr) (w h : Nat) (hw : 1 ≤ w) (hh : 1 ≤ h) : (s.resi
   · simp only [Scr.resize, clampNat]; omega
   · simp only [Scr.resize, clampNat]; omega
 
-theorem sok_resize (hB1 : B 1) (s : Scr) (hrows : ∀ r ∈ s.grid, okRow B r) (w h : Nat)
-    (hw : 1 ≤ w) (hh : 1 ≤ h) : SOk B (s.resize w h) := by
+theorem sok_resize (I : RowInv pol Wd P) (s : Scr) (hrows : ∀ r ∈ s.grid, P r) (w h : Nat)
+    (hw : 1 ≤ w) (hh : 1 ≤ h) : SOk P (s.resize w h) := by
   refine ⟨geo_resize s w h hw hh, ?_⟩
   intro r hr
   simp only [Scr.resize, List.mem_append, List.mem_map, List.mem_replicate] at hr
   rcases hr with ⟨r0, hr0, rfl⟩ | ⟨_, rfl⟩
-  · exact ok_fitRow hB1 (hrows r0 (List.mem_of_mem_take hr0)) _ _
-  · exact ok_blankRow hB1 _ _
+  · exact I.fit (hrows r0 (List.mem_of_mem_take hr0)) _ _
+  · exact I.blank _ _
 
-theorem sok_init (hB1 : B 1) (w h : Nat) (hw : 1 ≤ w) (hh : 1 ≤ h) : SOk B (Scr.init w h) := by
+theorem sok_init (I : RowInv pol Wd P) (w h : Nat) (hw : 1 ≤ w) (hh : 1 ≤ h) : SOk P (Scr.init w h) := by
   refine ⟨⟨hw, hh, by simp [Scr.init], ?_, hw, hh, hw, hh, Nat.zero_le _, ?_⟩, ?_⟩
   · intro r hr
     simp only [Scr.init, List.mem_replicate] at hr
@@ -1054,43 +1097,43 @@ theorem sok_init (hB1 : B 1) (w h : Nat) (hw : 1 ≤ w) (hh : 1 ≤ h) : SOk B (
   · simp only [Scr.init]; omega
   · intro r hr
     simp only [Scr.init, List.mem_replicate] at hr
-    rw [hr.2]; exact ok_blankRow hB1 _ _
+    rw [hr.2]; exact I.blank _ _
 
 end Screens
 
 /-! ### terminals -/
 
 /-- both buffers valid and of the same size -/
-def TOk (B : Nat → Prop) (t : Term) : Prop :=
-  SOk B t.main ∧ SOk B t.alt ∧ t.main.w = t.alt.w ∧ t.main.h = t.alt.h
+def TOk (P : Row → Prop) (t : Term) : Prop :=
+  SOk P t.main ∧ SOk P t.alt ∧ t.main.w = t.alt.w ∧ t.main.h = t.alt.h
 
 /-- what one step of the terminal guarantees: the invariant, unchanged size and policy, and
     every reported cursor position inside the screen -/
-def Good (B : Nat → Prop) (t : Term) (r : Term × List Ev) : Prop :=
-  TOk B r.1 ∧ r.1.main.w = t.main.w ∧ r.1.main.h = t.main.h ∧ r.1.pol = t.pol ∧
+def Good (P : Row → Prop) (t : Term) (r : Term × List Ev) : Prop :=
+  TOk P r.1 ∧ r.1.main.w = t.main.w ∧ r.1.main.h = t.main.h ∧ r.1.pol = t.pol ∧
   ∀ x y, Ev.cursor x y ∈ r.2 → x < t.main.w ∧ y < t.main.h
 
 section Terms
-variable {B : Nat → Prop}
+variable {P : Row → Prop} {Wd : Nat → Prop} {pol : WidePolicy}
 
-theorem scr_ok {t : Term} (h : TOk B t) :
-    SOk B t.scr ∧ t.scr.w = t.main.w ∧ t.scr.h = t.main.h := by
+theorem scr_ok {t : Term} (h : TOk P t) :
+    SOk P t.scr ∧ t.scr.w = t.main.w ∧ t.scr.h = t.main.h := by
   unfold Term.scr
   split
   · exact ⟨h.2.1, h.2.2.1.symm, h.2.2.2.symm⟩
   · exact ⟨h.1, rfl, rfl⟩
 
-theorem good_same {t t' : Term} {evs : List Ev} (h : TOk B t) (hm : t'.main = t.main)
+theorem good_same {t t' : Term} {evs : List Ev} (h : TOk P t) (hm : t'.main = t.main)
     (ha : t'.alt = t.alt) (hp : t'.pol = t.pol) (hev : ∀ x y, Ev.cursor x y ∉ evs) :
-    Good B t (t', evs) := by
+    Good P t (t', evs) := by
   refine ⟨?_, by rw [hm], by rw [hm], hp, fun x y hm' => absurd hm' (hev x y)⟩
   unfold TOk; rw [hm, ha]; exact h
 
-theorem good_id {t : Term} {evs : List Ev} (h : TOk B t) (hev : ∀ x y, Ev.cursor x y ∉ evs) :
-    Good B t (t, evs) := good_same h rfl rfl rfl hev
+theorem good_id {t : Term} {evs : List Ev} (h : TOk P t) (hev : ∀ x y, Ev.cursor x y ∉ evs) :
+    Good P t (t, evs) := good_same h rfl rfl rfl hev
 
-theorem good_setScr {t : Term} {s' : Scr} {evs : List Ev} (h : TOk B t) (hk : Keeps B t.scr s')
-    (hev : ∀ x y, Ev.cursor x y ∈ evs → x < s'.w ∧ y < s'.h) : Good B t (t.setScr s', evs) := by
+theorem good_setScr {t : Term} {s' : Scr} {evs : List Ev} (h : TOk P t) (hk : Keeps P t.scr s')
+    (hev : ∀ x y, Ev.cursor x y ∈ evs → x < s'.w ∧ y < s'.h) : Good P t (t.setScr s', evs) := by
   obtain ⟨hs, hw, hh⟩ := scr_ok h
   obtain ⟨ok', w', h'⟩ := hk
   have hev' : ∀ x y, Ev.cursor x y ∈ evs → x < t.main.w ∧ y < t.main.h := by
@@ -1107,12 +1150,12 @@ theorem good_setScr {t : Term} {s' : Scr} {evs : List Ev} (h : TOk B t) (hk : Ke
     simp only [halt] at w' h'
     exact ⟨⟨ok', h.2.1, w'.trans h.2.2.1, h'.trans h.2.2.2⟩, w', h', rfl, hev'⟩
 
-theorem good_setScr_quiet {t : Term} {s' : Scr} {evs : List Ev} (h : TOk B t)
-    (hk : Keeps B t.scr s') (hev : ∀ x y, Ev.cursor x y ∉ evs) : Good B t (t.setScr s', evs) :=
+theorem good_setScr_quiet {t : Term} {s' : Scr} {evs : List Ev} (h : TOk P t)
+    (hk : Keeps P t.scr s') (hev : ∀ x y, Ev.cursor x y ∉ evs) : Good P t (t.setScr s', evs) :=
   good_setScr h hk (fun x y hm => absurd hm (hev x y))
 
-theorem good_withScr {t : Term} {s' : Scr} (h : TOk B t) (hk : Keeps B t.scr s') :
-    Good B t (t.withScr s') := by
+theorem good_withScr {t : Term} {s' : Scr} (h : TOk P t) (hk : Keeps P t.scr s') :
+    Good P t (t.withScr s') := by
   unfold Term.withScr
   apply good_setScr h hk
   intro x y hm
@@ -1120,8 +1163,8 @@ theorem good_withScr {t : Term} {s' : Scr} (h : TOk B t) (hk : Keeps B t.scr s')
   obtain ⟨rfl, rfl⟩ := hm
   exact ⟨hk.1.cxlt, hk.1.cylt⟩
 
-theorem good_trans {t : Term} {r1 r2 : Term × List Ev} (h1 : Good B t r1) (h2 : Good B r1.1 r2) :
-    Good B t (r2.1, r1.2 ++ r2.2) := by
+theorem good_trans {t : Term} {r1 r2 : Term × List Ev} (h1 : Good P t r1) (h2 : Good P r1.1 r2) :
+    Good P t (r2.1, r1.2 ++ r2.2) := by
   obtain ⟨a1, b1, c1, d1, e1⟩ := h1
   obtain ⟨a2, b2, c2, d2, e2⟩ := h2
   refine ⟨a2, b2.trans b1, c2.trans c1, d2.trans d1, ?_⟩
@@ -1132,32 +1175,32 @@ theorem good_trans {t : Term} {r1 r2 : Term × List Ev} (h1 : Good B t r1) (h2 :
     rw [b1, c1] at this; exact this
 
 theorem good_ite {t : Term} {c : Prop} [Decidable c] {a b : Term × List Ev}
-    (ha : c → Good B t a) (hb : ¬ c → Good B t b) : Good B t (if c then a else b) := by
+    (ha : c → Good P t a) (hb : ¬ c → Good P t b) : Good P t (if c then a else b) := by
   split
   · exact ha ‹_›
   · exact hb ‹_›
 
-theorem good_setVFlag {t : Term} (h : TOk B t) (i : Nat) (v : Bool) : Good B t (t.setVFlag i v) :=
+theorem good_setVFlag {t : Term} (h : TOk P t) (i : Nat) (v : Bool) : Good P t (t.setVFlag i v) :=
   good_same h rfl rfl rfl (by simp)
 
-theorem good_setVInt {t : Term} (h : TOk B t) (i : Nat) (v : Int) : Good B t (t.setVInt i v) :=
+theorem good_setVInt {t : Term} (h : TOk P t) (i : Nat) (v : Int) : Good P t (t.setVInt i v) :=
   good_same h rfl rfl rfl (by simp)
 
-theorem good_setVStr {t : Term} (h : TOk B t) (i : Nat) (v : Bytes) : Good B t (t.setVStr i v) :=
+theorem good_setVStr {t : Term} (h : TOk P t) (i : Nat) (v : Bytes) : Good P t (t.setVStr i v) :=
   good_same h rfl rfl rfl (by simp)
 
-theorem good_setKbd {t : Term} (h : TOk B t) (k : Kbd) : Good B t (t.setKbd k, []) := by
+theorem good_setKbd {t : Term} (h : TOk P t) (k : Kbd) : Good P t (t.setKbd k, []) := by
   unfold Term.setKbd
   split
   · exact good_same h rfl rfl rfl (by simp)
   · exact good_same h rfl rfl rfl (by simp)
 
-theorem good_switchScreen {t : Term} (h : TOk B t) (v : Bool) : Good B t (t.switchScreen v) := by
+theorem good_switchScreen {t : Term} (h : TOk P t) (v : Bool) : Good P t (t.switchScreen v) := by
   unfold Term.switchScreen
   split
   · exact good_id h (by simp)
   · simp only
-    have h' : TOk B { t with onAlt := v } := h
+    have h' : TOk P { t with onAlt := v } := h
     obtain ⟨hs, hw, hh⟩ := scr_ok h'
     refine ⟨h, rfl, rfl, rfl, ?_⟩
     intro x y hm
@@ -1166,7 +1209,7 @@ theorem good_switchScreen {t : Term} (h : TOk B t) (v : Bool) : Good B t (t.swit
     obtain ⟨rfl, rfl⟩ := hm
     exact ⟨hw ▸ hs.cxlt, hh ▸ hs.cylt⟩
 
-theorem good_decMode {t : Term} (h : TOk B t) (p : Int) (v : Bool) : Good B t (t.decMode p v) := by
+theorem good_decMode {t : Term} (h : TOk P t) (p : Int) (v : Bool) : Good P t (t.decMode p v) := by
   unfold Term.decMode
   repeat' first
     | exact good_setVFlag h _ _
@@ -1176,8 +1219,8 @@ theorem good_decMode {t : Term} (h : TOk B t) (p : Int) (v : Bool) : Good B t (t
     | exact good_setScr_quiet h (keeps_wrap (keeps_refl (scr_ok h).1) _) (by simp)
     | (apply good_ite <;> intro _)
 
-theorem good_decModes {t : Term} (h : TOk B t) (v : Bool) (ps : List Int) :
-    Good B t (t.decModes v ps) := by
+theorem good_decModes {t : Term} (h : TOk P t) (v : Bool) (ps : List Int) :
+    Good P t (t.decModes v ps) := by
   induction ps generalizing t with
   | nil => exact good_id h (by simp)
   | cons p ps ih =>
@@ -1185,8 +1228,13 @@ theorem good_decModes {t : Term} (h : TOk B t) (v : Bool) (ps : List Int) :
     have h1 := good_decMode h p v
     exact good_trans h1 (ih h1.1)
 
-theorem good_csiPlain (hB1 : B 1) {t : Term} (h : TOk B t) (ps : List Int) (fin : UInt8) :
-    Good B t (t.csiPlain ps fin) := by
+section Dispatch
+-- make mismatching alternatives of the `first` combinators below fail fast
+attribute [local irreducible] Scr.eraseRegionI Scr.scroll Scr.setCursor Scr.dch Scr.setMargins
+  Scr.saveCursor Scr.restoreCursor Scr.lineDown Scr.lineUp Scr.put Term.setScr
+
+theorem good_csiPlain (I : RowInv pol Wd P) {t : Term} (h : TOk P t) (ps : List Int) (fin : UInt8) :
+    Good P t (t.csiPlain ps fin) := by
   have hs := (scr_ok h).1
   have hk := keeps_refl hs
   unfold Term.csiPlain
@@ -1198,24 +1246,26 @@ theorem good_csiPlain (hB1 : B 1) {t : Term} (h : TOk B t) (ps : List Int) (fin 
     | exact good_withScr h (keeps_restoreCursor hk)
     | exact good_setScr_quiet h (keeps_sty hk _) (by simp)
     | exact good_setScr_quiet h (keeps_saveCursor hk) (by simp)
-    | exact good_setScr_quiet h (keeps_eraseRegionI hB1 hk _ _ _ _) (by simp)
+    | exact good_setScr_quiet h (keeps_eraseRegionI I hk _ _ _ _) (by simp)
     | exact good_setScr_quiet h
-        (keeps_eraseRegionI hB1 (keeps_eraseRegionI hB1 hk _ _ _ _) _ _ _ _) (by simp)
-    | exact good_setScr_quiet h (keeps_scroll hB1 hk _ _ _) (by simp)
-    | exact good_setScr_quiet h (keeps_dch hB1 hk _) (by simp)
+        (keeps_eraseRegionI I (keeps_eraseRegionI I hk _ _ _ _) _ _ _ _) (by simp)
+    | exact good_setScr_quiet h (keeps_scroll I hk _ _ _) (by simp)
+    | exact good_setScr_quiet h (keeps_dch I hk _) (by simp)
     | exact good_setScr_quiet h (keeps_setMargins hk _ _) (by simp)
-    | (apply good_setScr h (keeps_setCursor (keeps_eraseRegionI hB1 hk _ _ _ _) _ _)
+    | (have hk2 := keeps_setCursor
+         (keeps_eraseRegionI I hk 0 0 (t.scr.w : Int) (t.scr.h : Int)) 0 0
+       apply good_setScr h hk2
        intro x y hm
        simp only [List.mem_cons, Ev.cursor.injEq, List.not_mem_nil, or_false, reduceCtorEq,
          false_or] at hm
        obtain ⟨rfl, rfl⟩ := hm
-       exact ⟨hs.wpos, hs.hpos⟩)
+       exact ⟨hk2.1.wpos, hk2.1.hpos⟩)
 
-theorem good_csi (hB1 : B 1) {t : Term} (h : TOk B t) (pfx : UInt8) (ps : List Int) (fin : UInt8) :
-    Good B t (t.csi pfx ps fin) := by
+theorem good_csi (I : RowInv pol Wd P) {t : Term} (h : TOk P t) (pfx : UInt8) (ps : List Int) (fin : UInt8) :
+    Good P t (t.csi pfx ps fin) := by
   unfold Term.csi
   repeat' first
-    | exact good_csiPlain hB1 h _ _
+    | exact good_csiPlain I h _ _
     | exact good_decModes h _ _
     | exact good_id h (by simp)
     | exact good_setVInt h _ _
@@ -1223,15 +1273,15 @@ theorem good_csi (hB1 : B 1) {t : Term} (h : TOk B t) (pfx : UInt8) (ps : List I
     | (apply good_ite <;> intro _)
     | split
 
-theorem good_apply (hB1 : B 1) (cw : Nat → Nat) (hcw : ∀ cp, B (max (cw cp) 1)) {t : Term}
-    (hB2 : t.pol = .keep → ∀ w, B w → w ≤ 2) (h : TOk B t) (tok : Tok) :
-    Good B t (t.apply cw tok) := by
+theorem good_apply {t : Term} (I : RowInv t.pol Wd P) (cw : Nat → Nat)
+    (hcw : ∀ cp, Wd (max (cw cp) 1)) (h : TOk P t) (tok : Tok) :
+    Good P t (t.apply cw tok) := by
   have hs := (scr_ok h).1
   have hk := keeps_refl hs
   cases tok with
   | text stored cp =>
     simp only [Term.apply]
-    have hk' := keeps_put hB1 hk t.pol hB2 stored (cw cp) (hcw cp)
+    have hk' := keeps_put I hk stored (cw cp) (hcw cp)
     apply good_setScr h hk'
     intro x y hm
     simp only [List.mem_cons, Ev.cursor.injEq, List.not_mem_nil, or_false, reduceCtorEq,
@@ -1245,21 +1295,21 @@ theorem good_apply (hB1 : B 1) (cw : Nat → Nat) (hcw : ∀ cp, B (max (cw cp) 
       | exact good_id h (by simp)
       | exact good_withScr h (keeps_cx hk (by have := hs.cxlt; omega))
       | exact good_withScr h (keeps_setCursor hk _ _)
-      | exact good_withScr h (keeps_lineDown hB1 (keeps_cx hk hs.wpos))
-      | exact good_withScr h (keeps_lineDown hB1 hk)
+      | exact good_withScr h (keeps_lineDown I (keeps_cx hk hs.wpos))
+      | exact good_withScr h (keeps_lineDown I hk)
       | exact good_withScr h (keeps_cx hk hs.wpos)
   | esc inter fin =>
     simp only [Term.apply]
     repeat' first
       | (apply good_ite <;> intro _)
       | exact good_id h (by simp)
-      | exact good_withScr h (keeps_lineDown hB1 hk)
-      | exact good_withScr h (keeps_lineUp hB1 hk)
+      | exact good_withScr h (keeps_lineDown I hk)
+      | exact good_withScr h (keeps_lineUp I hk)
       | exact good_setVFlag h _ _
   | csi pfx ps clean fin =>
     simp only [Term.apply]
     split
-    · exact good_csi hB1 h _ _ _
+    · exact good_csi I h _ _ _
     · exact good_id h (by simp)
   | osc num payload wf =>
     simp only [Term.apply]
@@ -1268,6 +1318,8 @@ theorem good_apply (hB1 : B 1) (cw : Nat → Nat) (hcw : ∀ cp, B (max (cw cp) 
       | exact good_id h (by simp)
       | exact good_setVStr h _ _
   | dcs => exact good_id h (by simp)
+
+end Dispatch
 
 end Terms
 
@@ -1278,8 +1330,11 @@ def Bof (pol : WidePolicy) : Nat → Prop := fun w => pol = .keep → w ≤ 2
 
 theorem Bof_one (pol : WidePolicy) : Bof pol 1 := fun _ => by omega
 
+theorem rowInv_Bof (pol : WidePolicy) : RowInv pol (Bof pol) (okRow (Bof pol)) :=
+  rowInv_ok pol _ (Bof_one pol) (fun hp _ hw => hw hp)
+
 theorem sok_iff (B : Nat → Prop) (s : Scr) :
-    SOk B s ↔ s.inv = true ∧ ∀ r ∈ s.grid, ∀ t w st, (⟨.ch t w, st⟩ : Cell) ∈ r → B w := by
+    SOk (okRow B) s ↔ s.inv = true ∧ ∀ r ∈ s.grid, ∀ t w st, (⟨.ch t w, st⟩ : Cell) ∈ r → B w := by
   simp only [SOk, Scr.geo, okRow, Scr.inv, Bool.and_eq_true, decide_eq_true_eq, List.all_eq_true,
     ge_iff_le]
   constructor
@@ -1289,7 +1344,7 @@ theorem sok_iff (B : Nat → Prop) (s : Scr) :
   · rintro ⟨⟨⟨⟨⟨⟨⟨⟨⟨⟨a, b⟩, c⟩, d⟩, e⟩, f⟩, g⟩, i⟩, j⟩, k⟩, o⟩
     exact ⟨⟨a, b, c, fun r m => (d r m).1, e, f, g, i, j, k⟩, fun r m => ⟨(d r m).2, o r m⟩⟩
 
-theorem wf_iff (t : Term) : t.wf ↔ TOk (Bof t.pol) t := by
+theorem wf_iff (t : Term) : t.wf ↔ TOk (okRow (Bof t.pol)) t := by
   unfold Term.wf Term.inv TOk
   rw [sok_iff, sok_iff]
   unfold Scr.narrow Bof
@@ -1301,11 +1356,11 @@ theorem wf_iff (t : Term) : t.wf ↔ TOk (Bof t.pol) t := by
     exact ⟨⟨a, b, c, d⟩, fun hp => ⟨fun r m t' w st hm => n1 r m t' w st hm hp,
       fun r m t' w st hm => n2 r m t' w st hm hp⟩⟩
 
-theorem tok_geo {B : Nat → Prop} {t : Term} (h : TOk B t) : t.geo := ⟨h.1.1, h.2.1.1, h.2.2⟩
+theorem tok_geo {P : Row → Prop} {t : Term} (h : TOk P t) : t.geo := ⟨h.1.1, h.2.1.1, h.2.2⟩
 
 theorem good_apply_wf (cw : Nat → Nat) (t : Term) (hcw : WidthOK t.pol cw) (h : t.wf) (tok : Tok) :
-    Good (Bof t.pol) t (t.apply cw tok) := by
-  apply good_apply (Bof_one _) cw _ (fun hp w hw => hw hp) ((wf_iff t).1 h)
+    Good (okRow (Bof t.pol)) t (t.apply cw tok) := by
+  apply good_apply (rowInv_Bof t.pol) cw _ ((wf_iff t).1 h)
   intro cp hp
   have := hcw hp cp
   omega
@@ -1316,7 +1371,7 @@ open Lemmas
 /-! ## 1. the initial state -/
 
 theorem init_wf (pol : WidePolicy) (w h : Nat) (hw : 1 ≤ w) (hh : 1 ≤ h) : (Term.init pol w h).wf :=
-  (wf_iff _).2 ⟨sok_init (Bof_one _) w h hw hh, sok_init (Bof_one _) w h hw hh, rfl, rfl⟩
+  (wf_iff _).2 ⟨sok_init (rowInv_Bof pol) w h hw hh, sok_init (rowInv_Bof pol) w h hw hh, rfl, rfl⟩
 
 theorem init_geo (pol : WidePolicy) (w h : Nat) (hw : 1 ≤ w) (hh : 1 ≤ h) : (Term.init pol w h).geo :=
   tok_geo ((wf_iff _).1 (init_wf pol w h hw hh))
@@ -1350,6 +1405,22 @@ theorem apply_inv_blank (cw : Nat → Nat) (t : Term) (hp : t.pol = .blank) (h :
   (apply_wf cw t (fun hk => by rw [hp] at hk; cases hk) ⟨h, fun hk => by rw [hp] at hk; cases hk⟩
     tok).1
 
+/-- grid buffer (`blank` policy): the geometric invariant ALONE is preserved by every token, for
+    EVERY width function and from EVERY state satisfying it (rows well formed or not); and the
+    reported cursor positions are inside the screen. (Under `keep` this is false, see
+    `geo_alone_not_inductive_under_keep`.) -/
+theorem apply_geo_blank (cw : Nat → Nat) (t : Term) (hp : t.pol = .blank) (h : t.geo) (tok : Tok) :
+    (t.apply cw tok).1.geo ∧ (t.apply cw tok).1.pol = .blank ∧
+    ∀ x y, Ev.cursor x y ∈ (t.apply cw tok).2 →
+      x < (t.apply cw tok).1.scr.w ∧ y < (t.apply cw tok).1.scr.h := by
+  have I : RowInv t.pol (fun _ => True) (fun _ => True) := by rw [hp]; exact rowInv_trivial
+  obtain ⟨a, b, c, d, e⟩ := good_apply I cw (fun _ => trivial)
+    ⟨⟨h.1, fun _ _ => trivial⟩, ⟨h.2.1, fun _ _ => trivial⟩, h.2.2⟩ tok
+  refine ⟨tok_geo a, d.trans hp, ?_⟩
+  obtain ⟨_, e1, e2⟩ := scr_ok a
+  rw [e1, e2, b, c]
+  exact e
+
 /-- tokens never change the size of either buffer nor the policy -/
 theorem apply_size (cw : Nat → Nat) (t : Term) (hcw : WidthOK t.pol cw) (h : t.wf) (tok : Tok) :
     let t' := (t.apply cw tok).1
@@ -1376,8 +1447,8 @@ theorem resize_wf (t : Term) (w h : Nat) (hw : 1 ≤ w) (hh : 1 ≤ h) (ht : t.w
     (t.resize w h).1.wf := by
   have h0 := (wf_iff t).1 ht
   rw [wf_iff]
-  exact ⟨sok_resize (Bof_one _) t.main h0.1.2 w h hw hh,
-    sok_resize (Bof_one _) t.alt h0.2.1.2 w h hw hh, rfl, rfl⟩
+  exact ⟨sok_resize (rowInv_Bof t.pol) t.main h0.1.2 w h hw hh,
+    sok_resize (rowInv_Bof t.pol) t.alt h0.2.1.2 w h hw hh, rfl, rfl⟩
 
 /-! ## 4. every reachable state -/
 
@@ -1451,6 +1522,24 @@ theorem run_geo (cw : Nat → Nat) (t : Term) (hcw : WidthOK t.pol cw) (h : t.wf
 theorem run_pol (cw : Nat → Nat) (t : Term) (hcw : WidthOK t.pol cw) (h : t.wf) (bs : Bytes) :
     (run cw t bs).1.pol = t.pol := (runFuel_wf cw _ t hcw h bs []).2
 
+/-- grid buffer: the read loop keeps the geometric invariant alone, for every width function -/
+theorem run_geo_blank (cw : Nat → Nat) (t : Term) (hp : t.pol = .blank) (h : t.geo) (bs : Bytes) :
+    (run cw t bs).1.geo := by
+  have key : ∀ (fuel : Nat) (t : Term) (bs : Bytes) (evs : List Ev), t.pol = .blank → t.geo →
+      (runFuel cw fuel t bs evs).1.geo := by
+    intro fuel
+    induction fuel with
+    | zero => intro t bs evs _ h; exact h
+    | succ fuel ih =>
+      intro t bs evs hp h
+      simp only [runFuel]
+      split
+      · exact h
+      · next tk n _ =>
+        obtain ⟨a, b, _⟩ := apply_geo_blank cw t hp h tk
+        exact ih _ _ _ b a
+  exact key _ t bs [] hp h
+
 /-! ## 5. reported cursor positions -/
 
 /-- every cursor position reported to the frontend while processing a token lies inside the
@@ -1484,4 +1573,207 @@ theorem cpr_in_range (cw : Nat → Nat) (t : Term) (h : t.wf) (ps : List Int) (h
   refine ⟨t.scr.cy + 1, t.scr.cx + 1, ?_, by omega, hs.cylt, by omega, hs.cxlt⟩
   simp [Term.apply, Term.csi, Term.csiPlain, hp, csiReplyCPR]
 
+/-! ## 6. rows are runs of whole characters (the wide-character part) -/
+
+/-- In every state satisfying the invariant each row of each buffer has exactly `w` cells and is
+    partitioned into characters: every column `x` is covered by exactly the character whose first
+    cell is at `headOf row x`, which has a width `cw ≥ 1` and lies inside the row. -/
+theorem wf_row_runs {t : Term} (h : t.wf) (b : Term → Scr) (hb : b = Term.main ∨ b = Term.alt)
+    (x y : Nat) (hy : y < (b t).h) (hx : x < (b t).w) :
+    ((b t).row y).length = (b t).w ∧
+    ∃ tx cw st, ((b t).row y)[headOf ((b t).row y) x]? = some ⟨.ch tx cw, st⟩ ∧ 1 ≤ cw ∧
+      headOf ((b t).row y) x ≤ x ∧ x < headOf ((b t).row y) x + cw ∧
+      headOf ((b t).row y) x + cw ≤ (b t).w ∧
+      (∀ k, headOf ((b t).row y) x < k → k < headOf ((b t).row y) x + cw →
+        contAt ((b t).row y) k = true) := by
+  have h0 := (wf_iff t).1 h
+  have hs : SOk (okRow (Bof t.pol)) (b t) := by rcases hb with rfl | rfl; exact h0.1; exact h0.2.1
+  have hm := row_mem hs hy
+  have hl := hs.rlen _ hm
+  refine ⟨hl, ?_⟩
+  obtain ⟨tx, cw, st, a1, a2, a3, a4, _, _⟩ := wf_head (hs.2 _ hm).1 (x := x) (by omega)
+  refine ⟨tx, cw, st, a1, a2, headOf_le _ _, a3, by rw [← hl]; exact a4, ?_⟩
+  exact (((rowWF_iff _).1 (hs.2 _ hm).1).2 _ tx cw st a1).2.2.1
+
+theorem okRow_true (r : Row) : okRow (fun _ => True) r ↔ rowWF r = true :=
+  ⟨fun h => h.1, fun h => ⟨h, fun _ _ _ _ => trivial⟩⟩
+
+/-- `Row.put` (character fitting in the row) keeps rows well formed and of the same length -/
+theorem put_rowWF (r : Row) (x : Nat) (t : Bytes) (w : Nat) (st : Style) (h : rowWF r = true)
+    (hw : 1 ≤ w) (hxw : x + w ≤ r.length) :
+    rowWF (r.put x t w st) = true ∧ (r.put x t w st).length = r.length :=
+  ⟨(ok_put (B := fun _ => True) trivial ((okRow_true r).2 h) t st hw hxw trivial).1, put_length ..⟩
+
+/-- `Row.erase` keeps rows well formed and of the same length, for all arguments -/
+theorem erase_rowWF (r : Row) (a b : Nat) (st : Style) (h : rowWF r = true) :
+    rowWF (r.erase a b st) = true ∧ (r.erase a b st).length = r.length :=
+  ⟨(ok_erase (B := fun _ => True) trivial ((okRow_true r).2 h) a b st).1, erase_length ..⟩
+
+/-- `Row.dch` keeps rows well formed and of the same length, for all arguments -/
+theorem dch_rowWF (r : Row) (x n : Nat) (st : Style) (h : rowWF r = true) :
+    rowWF (r.dch x n st) = true ∧ (r.dch x n st).length = r.length :=
+  ⟨(ok_dch (B := fun _ => True) trivial ((okRow_true r).2 h) x n st).1, dch_length ..⟩
+
+/-- `fitRow` keeps rows well formed and gives them the new width, for all arguments -/
+theorem fitRow_rowWF (r : Row) (w : Nat) (st : Style) (h : rowWF r = true) :
+    rowWF (fitRow r w st) = true ∧ (fitRow r w st).length = w :=
+  ⟨(ok_fitRow (B := fun _ => True) trivial ((okRow_true r).2 h) w st).1, fitRow_length ..⟩
+
+/-- `blankStraddlers` keeps rows well formed and makes both `a` and `b` character boundaries -/
+theorem blankStraddlers_rowWF (r : Row) (a b : Nat) (st : Style) (h : rowWF r = true) :
+    rowWF (blankStraddlers r a b st) = true ∧ contAt (blankStraddlers r a b st) a = false ∧
+      contAt (blankStraddlers r a b st) b = false := by
+  obtain ⟨o, c1, c2⟩ := ok_blankStraddlers (B := fun _ => True) trivial ((okRow_true r).2 h) a b st
+  exact ⟨o.1, c1, c2⟩
+
+/-- `Row.putKeep` (span-buffer write on a continuation cell) keeps rows well formed and of the
+    same length when no character is wider than 2 cells.
+    Without the width bound this is false, see `keep_policy_width3_breaks_geo`. -/
+theorem putKeep_rowWF (r : Row) (x : Nat) (t : Bytes) (w : Nat) (st : Style) (h : rowWF r = true)
+    (hn : ∀ t' w' st', (⟨.ch t' w', st'⟩ : Cell) ∈ r → w' ≤ 2) (hc : contAt r x = true)
+    (hw : 1 ≤ w) (hw2 : w ≤ 2) (hxw : x + w ≤ r.length) :
+    rowWF (r.putKeep x t w st) = true ∧ (r.putKeep x t w st).length = r.length := by
+  obtain ⟨o, l, _⟩ := ok_putKeep (B := fun w => w ≤ 2) (by omega) (fun _ h => h) ⟨h, hn⟩ t st hc hw
+    hxw hw2
+  exact ⟨o.1, l⟩
+
+/-- every screen operation used by the dispatcher keeps `Scr.inv` (and the size) -/
+theorem scr_ops_inv (s : Scr) (h : s.inv = true) :
+    (∀ y1 y2 d, (s.scroll y1 y2 d).inv = true) ∧ s.lineDown.inv = true ∧ s.lineUp.inv = true ∧
+    (∀ x1 y1 x2 y2, (s.eraseRegionI x1 y1 x2 y2).inv = true) ∧ (∀ n, (s.dch n).inv = true) ∧
+    (∀ a b, (s.setMargins a b).inv = true) ∧ (∀ x y, (s.setCursor x y).inv = true) ∧
+    s.saveCursor.inv = true ∧ s.restoreCursor.inv = true ∧
+    (∀ text w0, (s.put .blank text w0).inv = true) ∧
+    (∀ w' h', 1 ≤ w' → 1 ≤ h' → (s.resize w' h').inv = true) := by
+  have hs : SOk (okRow (fun _ => True)) s := (sok_iff _ s).2 ⟨h, fun _ _ _ _ _ _ => trivial⟩
+  have hk := keeps_refl hs
+  have I : RowInv .blank (fun _ => True) (okRow (fun _ => True)) :=
+    rowInv_ok _ _ trivial (fun hp => by cases hp)
+  have e : ∀ {s' : Scr}, Keeps (okRow (fun _ => True)) s s' → s'.inv = true :=
+    fun hk' => ((sok_iff _ _).1 hk'.1).1
+  refine ⟨fun _ _ _ => e (keeps_scroll I hk _ _ _), e (keeps_lineDown I hk),
+    e (keeps_lineUp I hk), fun _ _ _ _ => e (keeps_eraseRegionI I hk _ _ _ _),
+    fun _ => e (keeps_dch I hk _), fun _ _ => e (keeps_setMargins hk _ _),
+    fun _ _ => e (keeps_setCursor hk _ _), e (keeps_saveCursor hk), e (keeps_restoreCursor hk),
+    fun _ _ => e (keeps_put I hk _ _ trivial),
+    fun w' h' hw hh => ((sok_iff _ _).1 (sok_resize I s hs.2 w' h' hw hh)).1⟩
+
+/-! ## 7. why the `keep` policy needs widths ≤ 2 -/
+
+/-- a width function with one triple-width character -/
+def cw3 (cp : Nat) : Nat := if cp = 0x57 then 3 else 1
+
+/-- `WWW  CUP(1,3) x  CUP(1,1) DCH 4  CUP(1,6) W  CUP(1,5) ECH 1  CUP(1,8) x` -/
+def width3Input : Bytes :=
+  [87, 87, 87, 27, 91, 49, 59, 51, 72, 120, 27, 91, 49, 59, 49, 72, 27, 91, 52, 80, 27, 91, 49, 59,
+   54, 72, 87, 27, 91, 49, 59, 53, 72, 27, 91, 49, 88, 27, 91, 49, 59, 56, 72, 120]
+
+/-- With a character of width 3 the span-buffer policy (`keep`) of the MODEL does not keep the
+    geometric invariant: after this input on a 9 × 1 terminal the only row has 8 cells. (The
+    same input under the `blank` policy keeps 9 cells, as `apply_inv_blank` guarantees.) So
+    `apply_geo` cannot be stated for an arbitrary width function under `keep`. -/
+theorem keep_policy_width3_breaks_geo :
+    (run cw3 (Term.init .keep 9 1) width3Input).1.main.grid.map List.length = [8] ∧
+    (run cw3 (Term.init .blank 9 1) width3Input).1.main.grid.map List.length = [9] ∧
+    ¬ (run cw3 (Term.init .keep 9 1) width3Input).1.geo := by
+  have h8 : (run cw3 (Term.init .keep 9 1) width3Input).1.main.grid.map List.length = [8] := by
+    decide
+  have hw : (run cw3 (Term.init .keep 9 1) width3Input).1.main.w = 9 := by decide
+  refine ⟨h8, by decide, ?_⟩
+  intro hg
+  have hr := hg.1.2.2.2.1
+  generalize (run cw3 (Term.init .keep 9 1) width3Input).1.main = s at h8 hw hr
+  cases hgr : s.grid with
+  | nil => rw [hgr] at h8; simp at h8
+  | cons r rest =>
+    have := hr r (by rw [hgr]; exact List.mem_cons_self)
+    rw [hgr] at h8
+    simp only [List.map_cons, List.cons.injEq] at h8
+    omega
+
+/-- a state that satisfies the geometric invariant but has an ill-formed row (two continuation
+    cells after a character of width 1), cursor on the last cell -/
+def illFormed : Term :=
+  { pol := .keep,
+    main := { w := 3, h := 1,
+              grid := [[⟨.ch [0x61] 1, Style.default⟩, ⟨.cont, Style.default⟩, ⟨.cont, Style.default⟩]],
+              cx := 2, cy := 0, sx := 0, sy := 0, top := 0, bot := 0, wrap := false,
+              sty := Style.default },
+    alt := Scr.init 3 1 }
+
+/-- The geometric invariant ALONE is not preserved under the `keep` policy, even with all widths
+    equal to 1: `Row.putKeep` relies on the row being well formed. This is why `apply_geo` takes
+    the full invariant `Term.wf` (which every reachable state satisfies) as hypothesis and not
+    just `Term.geo`. -/
+theorem geo_alone_not_inductive_under_keep :
+    illFormed.geo ∧ ¬ (illFormed.apply (fun _ => 1) (.text [0x78] 0x78)).1.geo := by decide
+
+/-! ## Non-vacuity -/
+section Examples
+
+/-- a realistic width function: CJK and emoji ranges are double width -/
+def cw2 (cp : Nat) : Nat := if cp ≥ 0x1100 then 2 else 1
+
+example : WidthOK .keep cw2 := by intro _ cp; unfold cw2; split <;> omega
+example : WidthOK .blank cw3 := by intro h; cases h
+example : (Term.init .keep 80 24).wf := init_wf _ _ _ (by omega) (by omega)
+
+/-- `a中b`, CUP(1,3), `x` (written on the second cell of the wide character), DCH 1, LF,
+    `中中` (wraps / clamps at the right edge), EL 1 -/
+def exInput : Bytes :=
+  [0x61, 0xe4, 0xb8, 0xad, 0x62, 0x1b, 0x5b, 0x31, 0x3b, 0x33, 0x48, 0x78,
+   0x1b, 0x5b, 0x31, 0x50, 0x0a, 0xe4, 0xb8, 0xad, 0xe4, 0xb8, 0xad, 0x1b, 0x5b, 0x31, 0x4b]
+
+-- a non-trivial reachable state (with double-width characters in the grid) satisfies `wf`,
+-- under both policies, and really contains a continuation cell
+example : (run cw2 (Term.init .keep 4 2) exInput).1.wf :=
+  run_wf cw2 _ (by intro _ cp; unfold cw2; split <;> omega) (init_wf _ _ _ (by omega) (by omega)) _
+example : (run cw2 (Term.init .keep 4 2) exInput).1.main.inv = true := by decide
+example : contAt ((run cw2 (Term.init .blank 4 2) [0x61, 0xe4, 0xb8, 0xad]).1.main.row 0) 2 = true := by
+  decide
+example : (run cw2 (Term.init .blank 4 2) [0x61, 0xe4, 0xb8, 0xad]).1.main.inv = true := by decide
+-- operations
+example : Op.valid (.resize 3 1) := ⟨by omega, by omega⟩
+example : (runOps cw2 (Term.init .keep 4 2) [.tok (.text [0xe4, 0xb8, 0xad] 0x4e2d), .resize 1 1,
+    .tok (.ctl 10), .resize 7 3]).geo :=
+  reachable_geo cw2 .keep 4 2 (by intro _ cp; unfold cw2; split <;> omega) (by omega) (by omega)
+    [.tok (.text [0xe4, 0xb8, 0xad] 0x4e2d), .resize 1 1, .tok (.ctl 10), .resize 7 3]
+    (by intro op hop; simp at hop; rcases hop with rfl | rfl | rfl | rfl <;> simp [Op.valid]) 4
+-- a cursor report is really emitted (the range statement is not vacuous)
+example : Ev.cursor 1 0 ∈ ((Term.init .blank 4 2).apply cw2 (.text [0x61] 0x61)).2 := by decide
+-- a CPR is really emitted
+example : ((Term.init .blank 4 2).apply cw2 (.csi 0 [6] true 0x6e)).2 =
+    [.reply [0x1b, 0x5b, 0x31, 0x3b, 0x31, 0x52]] := by decide
+
+end Examples
+
 end TM.C02
+
+#print axioms TM.C02.init_wf
+#print axioms TM.C02.init_geo
+#print axioms TM.C02.wf_geo
+#print axioms TM.C02.apply_wf
+#print axioms TM.C02.apply_geo
+#print axioms TM.C02.apply_inv_blank
+#print axioms TM.C02.apply_geo_blank
+#print axioms TM.C02.apply_size
+#print axioms TM.C02.resize_geo
+#print axioms TM.C02.resize_wf
+#print axioms TM.C02.reachable_wf
+#print axioms TM.C02.reachable_geo
+#print axioms TM.C02.run_wf
+#print axioms TM.C02.run_geo
+#print axioms TM.C02.run_geo_blank
+#print axioms TM.C02.cursor_reports_in_range
+#print axioms TM.C02.resize_cursor_report_in_range
+#print axioms TM.C02.cpr_in_range
+#print axioms TM.C02.wf_row_runs
+#print axioms TM.C02.put_rowWF
+#print axioms TM.C02.erase_rowWF
+#print axioms TM.C02.dch_rowWF
+#print axioms TM.C02.fitRow_rowWF
+#print axioms TM.C02.blankStraddlers_rowWF
+#print axioms TM.C02.putKeep_rowWF
+#print axioms TM.C02.scr_ops_inv
+#print axioms TM.C02.keep_policy_width3_breaks_geo
+#print axioms TM.C02.geo_alone_not_inductive_under_keep
